@@ -250,8 +250,14 @@ def run(cx):
                     inst.violation(sb.path, "send() refusal", "send() panics on a path where neither len > max_packet_size nor channel >= CHANNEL_COUNT is established", at=sb.span_at(l), detail={"facts_on_offending_path": sorted(bad)[:6] if bad else []})
             if n != 2:
                 inst.violation(sb.path, "send() refusals", "expected the two documented refusals in send(), found %d panic sites" % n)
-    from props.C02 import inst_resync_guard
+    from props.C02 import inst_resync_guard, inst_emit_guards
     inst_resync_guard(cx, "C04.j")
+    # no emitted UDP payload exceeds 1472 bytes only if the size accounted for a datagram is the size written
+    # (header class predicates of encoded_size and add agree); a fragmented packet arrives only if the sender
+    # admits it against the same fragment-rounded size the receiver reserves
+    from bits import check_headers
+    check_headers(cx, "C04.k", "C04.l")
+    inst_emit_guards(cx, "C04.m")
     from props.shared import window_walks
     window_walks(cx, "C04.g")
     from props.C05 import fragment_enumeration
